@@ -465,6 +465,18 @@ namespace hv
         }
     };
 
+    struct VToCmp
+    {
+        static constexpr auto name = "v_tocmp";
+        HV_LIFECYCLE
+        static void eval(In<"a", TS<Int>> a, Scalar<"uid", Int> uid, NodeView nv, DateTime now, Out<TS<stdlib::CmpResult>> out)
+        {
+            const Int sign = ((a.value() % 3) + 3) % 3 - 1;      // residue 0 / 1 / 2 selects LT / EQ / GT (every generated value selects)
+            out.set(sign < 0 ? stdlib::CmpResult::LT : sign > 0 ? stdlib::CmpResult::GT : stdlib::CmpResult::EQ);
+            log_eval(uid.value(), nv, now, sign, a);
+        }
+    };
+
     // reads and overwrites a per-definition key of the run's GlobalState: a leak between runs changes what it reads
     struct VGs
     {
